@@ -16,7 +16,7 @@ from engines import contracts
 from oracles import jack
 from oracles.binrule import bin_members
 from vlib import cats, gen
-from vlib.core import HELD, VIOLATED, Check, Scratch, result
+from vlib.core import case_bits, HELD, VIOLATED, Check, Scratch, result
 
 SUBSETS = [list(c) for r in range(1, 4) for c in itertools.combinations(("dr", "rd", "rr"), r)
            if not ("rr" in c and "dr" not in c)]
@@ -315,6 +315,11 @@ class C03(Check):
         dec = np.arcsin(rng.uniform(-1, 1, n))
         z = rng.uniform(edges[0] - 0.1, edges[-1] + 0.1, n)
         z[rng.choice(n, max(1, n // 8), replace=False)] = rng.choice(edges, max(1, n // 8))
+        if case_bits(case, "patch-outside-binning") % 3 == 0:
+            # a regular patch without any object inside the binning (a high-redshift pointing): its histogram row is
+            # all zero, it is still one of the N jackknife regions
+            k_out = int(rng.integers(P))
+            z[pid == k_out] = edges[-1] + rng.uniform(0.2, 0.5, int((pid == k_out).sum()))
         w = rng.uniform(0.2, 3, n) if rng.random() < 0.5 else None
         if w is not None and rng.random() < 0.4:
             # huge dynamic range: a few objects outweigh the rest by many orders of magnitude, so that a sample
